@@ -833,24 +833,8 @@ func runSafetySweep(e *Engine, res *checkResult, timeout int, two bool, work str
 // failing input.
 func runBoundedC20(e *Engine, res *checkResult, work string) {
 	vdir := verifDir()
-	bin := filepath.Join(work, "fuzzrun")
-	env := append(os.Environ(), "GOFLAGS=-mod=mod", "GOPROXY=off", "GOSUMDB=off", "GOTOOLCHAIN=local")
-	// the harness module uses "replace => /repo/go": honour GOVC_REPO through a temp copy of go.mod
-	fdir := filepath.Join(work, "fuzzsrc")
-	os.MkdirAll(fdir, 0755)
-	for _, f := range []string{"main.go"} {
-		data, _ := os.ReadFile(filepath.Join(vdir, "fuzz", f))
-		os.WriteFile(filepath.Join(fdir, f), data, 0644)
-	}
-	gomod, _ := os.ReadFile(filepath.Join(vdir, "fuzz", "go.mod"))
-	os.WriteFile(filepath.Join(fdir, "go.mod"), []byte(strings.ReplaceAll(string(gomod), "/repo/go", repoDir())), 0644)
-	sum, _ := os.ReadFile(filepath.Join(repoDir(), "go.sum"))
-	os.WriteFile(filepath.Join(fdir, "go.sum"), sum, 0644)
-	cmd := exec.Command("go", "build", "-o", bin, ".")
-	cmd.Dir = fdir
-	cmd.Env = env
-	if out, err := cmd.CombinedOutput(); err != nil {
-		res.notes = append(res.notes, "bounded runner did not build: "+string(out))
+	bin, env, ok := buildBoundedRunner(res, work)
+	if !ok {
 		return
 	}
 	maxLines := "2"
@@ -923,4 +907,30 @@ func runBoundedC20(e *Engine, res *checkResult, work string) {
 		"seconds":     round2(time.Since(t0).Seconds()),
 		"label":       "bounded (not counted as proved)",
 	})
+}
+
+// buildBoundedRunner compiles /verif/fuzz against the current working tree of the repository.
+func buildBoundedRunner(res *checkResult, work string) (string, []string, bool) {
+	vdir := verifDir()
+	bin := filepath.Join(work, "fuzzrun")
+	env := append(os.Environ(), "GOFLAGS=-mod=mod", "GOPROXY=off", "GOSUMDB=off", "GOTOOLCHAIN=local")
+	if _, err := os.Stat(bin); err == nil {
+		return bin, env, true
+	}
+	fdir := filepath.Join(work, "fuzzsrc")
+	os.MkdirAll(fdir, 0755)
+	data, _ := os.ReadFile(filepath.Join(vdir, "fuzz", "main.go"))
+	os.WriteFile(filepath.Join(fdir, "main.go"), []byte(strings.ReplaceAll(string(data), "/repo/go/", repoDir()+"/")), 0644)
+	gomod, _ := os.ReadFile(filepath.Join(vdir, "fuzz", "go.mod"))
+	os.WriteFile(filepath.Join(fdir, "go.mod"), []byte(strings.ReplaceAll(string(gomod), "/repo/go", repoDir())), 0644)
+	sum, _ := os.ReadFile(filepath.Join(repoDir(), "go.sum"))
+	os.WriteFile(filepath.Join(fdir, "go.sum"), sum, 0644)
+	cmd := exec.Command("go", "build", "-o", bin, ".")
+	cmd.Dir = fdir
+	cmd.Env = env
+	if out, err := cmd.CombinedOutput(); err != nil {
+		res.notes = append(res.notes, "bounded runner did not build: "+string(out))
+		return "", nil, false
+	}
+	return bin, env, true
 }
